@@ -137,4 +137,37 @@ def runSteps (fix : Bool) : List Period → Nat → Nat → List Step → M (Nat
       | .error x => .error x
       | .ok (a, tr) => .ok (a, (h, currentPeriod ps h, m) :: tr)
 
+/-! ### the tree with fixes/F27.diff applied
+
+  The accumulator belongs to the period that was current in the previous block:
+  * `EndBlocker`: it enters the block's distribution only if the period covering height−1 in the
+    stored list (`RewardPeriodAt`) is the same period as the current one (`SameRewardPeriod`: block
+    range, allocation, mod) — which subsumes the F10 rule (in a period's first block the previous
+    height is before its start);
+  * `AddRewardPeriod` handler: it is zeroed unless the period covering height−1 is the same in the
+    old and in the new list. -/
+
+def accuInR (ps : List Period) (p : Period) (h accu : Nat) : Nat :=
+  if h ≠ 0 ∧ currentPeriod ps (h - 1) = some p then accu else 0
+
+def endBlockR (ps : List Period) (h accu : Nat) (e : Env) : M (Nat × Nat) :=
+  match currentPeriod ps h with
+  | none => .ok (accu, 0)
+  | some p => if p.alloc = 0 then .ok (accu, 0) else endBlockActive false p h (accuInR ps p h accu) e
+
+/-- the message handler: what it leaves in the accumulator -/
+def editAccu (ps ps' : List Period) (h accu : Nat) : Nat :=
+  if h = 0 ∨ currentPeriod ps (h - 1) = currentPeriod ps' (h - 1) then accu else 0
+
+def runStepsR : List Period → Nat → Nat → List Step → M (Nat × List BlockObs)
+  | _, _, accu, [] => .ok (accu, [])
+  | ps, h, accu, .edit ps' :: r => runStepsR ps' h (editAccu ps ps' h accu) r
+  | ps, h, accu, .block e :: r =>
+    match endBlockR ps h accu e with
+    | .error x => .error x
+    | .ok (accu', m) =>
+      match runStepsR ps (h + 1) accu' r with
+      | .error x => .error x
+      | .ok (a, tr) => .ok (a, (h, currentPeriod ps h, m) :: tr)
+
 end Sif.Rewards
